@@ -764,6 +764,10 @@ func (x *Exec) sliceOp(fr *Frame, st *State, in *ssa.Slice) {
 				unsup("slicing an array nested in another object (%s)", loc.Fam)
 			}
 			x.snapRefs = append(x.snapRefs, ref)
+			if x.snapFams == nil {
+				x.snapFams = map[string]bool{}
+			}
+			x.snapFams[fam] = true // (references are per family: only writes to the same family can hit a snapshot)
 			x.snapInit = true
 			for j := range x.c.leaves(et) {
 				c := x.comp(st, fam, et, j)
@@ -981,7 +985,7 @@ func (x *Exec) checkFrame(fr *Frame, st *State, loc *Loc, pos token.Pos) {}
 // under contract is executed: the written object must be new (allocated during this call) or named in
 // the contract's modifies clause. This is what makes call-site reasoning by contract sound.
 func (x *Exec) frameWrite(st *State, k string, t *Term) {
-	if len(x.snapRefs) > 0 && !st.dry && !x.inInit && t != nil && t.Op == "store" && strings.HasPrefix(k, "arr:") && x.curFr != nil {
+	if len(x.snapRefs) > 0 && !st.dry && !x.inInit && t != nil && t.Op == "store" && x.snapFams[famOfKey(k)] && x.curFr != nil {
 		ref := t.Args[1]
 		fresh := ref.Op == "const" && strings.HasPrefix(ref.Name, "ref_") && !strings.HasPrefix(ref.Name, "ref_arrsnap")
 		isSnapInit := false
